@@ -115,7 +115,7 @@ func histNontrivial(steps []Step) bool {
 // playHist runs the history on a fresh API instance of configuration fl. It returns the index of the
 // first step whose answer differs from the transport-free run of that step (-1: none).
 func (h *harness) playHist(steps []Step, fl Flags, seed uint64, verbose, withModel bool) (int, *failure) {
-	w, err := newWorld(fl)
+	w, err := newWorld(fl, nil)
 	if err != nil {
 		return -1, nil // reported at start-up
 	}
